@@ -30,6 +30,20 @@ CHECKS["C20"] = {
     ],
 }
 
+CHECKS["C17"] = {
+    "pkg": "c17",
+    "level": "exploration",
+    "technique": "exhaustive interleaving enumeration at method granularity (harness plays the scheduler) against a specification model + rapid-sampled larger configurations + goroutine stress of the real scheduler",
+    "level_text": "For every configuration of <=2 txns x <=3 keys (quick) and additionally 3 txns x <=2 keys x all 90 timestamp orders x {1,2} slots (thorough, complete) every interleaving of arrive/release/wake is executed on the real Latches and compared with a FIFO-per-key specification after every step; configurations up to the property's full bound (4 txns x 3 keys) are sampled by rapid with all their interleavings. The real scheduler goroutine is stressed with up to 15 goroutines. Interleavings below method granularity (inside one slot mutex) are reached by the stress part only.",
+    "level_note": "Trusted: the hook internal/latch/verif_export.go only forwards to genLock/acquire/release; timestamps stay within one physical millisecond so the 2-minute recycler (which forgets by design) is out of scope.",
+    "tests": [
+        {"name": "TestEnumSmall", "quick": 1, "thorough": 1, "shards": 1},
+        {"name": "TestEnum3", "quick": 1, "thorough": 1, "shards": 16, "thorough_only": True},
+        {"name": "TestSampled", "quick": 1500, "thorough": 12000, "shards": 8},
+        {"name": "TestSchedulerStress", "quick": 1, "thorough": 1, "shards": 4, "race": True},
+    ],
+}
+
 # properties without a registered check, with the reason (kept current by hand)
 NOT_CLAIMED = {}
 
